@@ -12,11 +12,15 @@ READY = True
 
 RULE = ("cases drawn from one PRNG (VERIF_SEED): one async node of a random source shape (0: fetcher reads two signals; 1: two "
         "memos; 2: memo m3 then memo m2 with m3 depending on m2; 3: resource-like, a hand-tracked memo over (refetch counter, "
-        "source) with or without an initial value), as ArcAsyncDerived or arena AsyncDerived, with no dependent / an Effect "
+        "source) with or without an initial value; 4: leptos_server ArcResource::new / Resource::new; 5: leptos_server "
+        "ArcOnceResource::new / OnceResource::new), as ArcAsyncDerived, arena AsyncDerived or new_unsync with a tracked refetch "
+        "counter (what LocalResource::new builds), with no dependent / an Effect "
         "reading it / an Effect reading it and a memo; followed by a history of signal writes (values 0..5 so that memo values "
         "sometimes stay and sometimes change), refetches, manual set(Some v), notify (only after a manual set), completion of "
         "any created fetch future in any order, polls of the node's task and of the dependent's task in any order, "
-        "run-until-idle with a pick order, creation of awaiters and hand polls of them at arbitrary points. At the end every "
+        "run-until-idle with a pick order, creation of awaiters (inside or outside an owner providing a SuspenseContext) and hand "
+        "polls of them at arbitrary points, each poll with a fresh waker (only the latest one must be invoked); the "
+        "boundary's pending-task count is observed after every event. At the end every "
         "future is completed, the executor runs until idle and every awaiter is polled. A case is non-trivial when at least "
         "two fetch futures are created and at least one tracked write happens while a fetch is in flight or a task is ready; "
         "distinct = distinct case hash.")
@@ -30,8 +34,9 @@ TRUSTED = [
     "modelled, not verified: memos (ArcMemo) are assumed to behave to their specification — cached value refreshed when "
     "pulled, subscribers other than the current observer marked when the value changes (that is C01/C09's subject); "
     "channel.rs flag + AtomicWaker; async_lock::RwLock (uncontended in atomic polls); Effect's task loop for the dependent",
-    "leptos_server/src/{resource,once_resource,local_resource}.rs are covered through the constructor they call "
-    "(new_with_manual_dependencies / new_unsync) and by reading; serialization / hydration of resources is out of scope",
+    "leptos_server: ArcResource / Resource and ArcOnceResource / OnceResource are driven through their real constructors, "
+    "refetch(), IntoFuture, ready() and reads; LocalResource only through what its constructor builds (new_unsync + tracked "
+    "refetch counter; its fetcher first awaits Executor::tick(), not exercised); serialization / hydration is out of scope",
 ]
 ASSUMPTIONS = [
     "single-threaded executor, atomic polls (the cross-thread windows belong to C19)",
@@ -40,6 +45,8 @@ ASSUMPTIONS = [
     "exists, makes a pending awaiter panic at `unwrap()` in AsyncDerivedFuture::poll — not generated, reported as an observation",
     "an initial (hydrated) value equals the fetcher applied to the initial inputs",
     "Owner::paused() is false",
+    "Suspense: only awaits (AsyncDerivedFuture / OnceResourceFuture polls) happen under the boundary; synchronous reads under a "
+    "Suspense boundary (which spawn a helper task) are not generated",
 ]
 
 N_QUICK = 5000
@@ -51,6 +58,10 @@ def fetch(a, b):
 
 
 def inputs(shape, sig):
+    if shape == 5:
+        return (7, 7)
+    if shape == 4:
+        shape = 3
     if shape == 0:
         return (sig[0], sig[1])
     if shape == 1:
@@ -62,8 +73,13 @@ def inputs(shape, sig):
 
 
 def gen_case(rng):
-    shape = rng.choice([0, 0, 1, 1, 2, 2, 3, 3])
-    wrap = rng.randint(0, 1) if shape < 3 else 0
+    shape = rng.choice([0, 0, 1, 1, 2, 2, 3, 4, 4, 5, 5])
+    if shape == 0:
+        wrap = rng.choice([0, 1, 2])
+    elif shape in (1, 2, 4, 5):
+        wrap = rng.randint(0, 1)
+    else:
+        wrap = 0
     dep = rng.choice([0, 1, 2, 2])
     initial = [0] if (shape == 3 and rng.random() < 0.4) else []
     evs = []
@@ -73,31 +89,30 @@ def gen_case(rng):
     n = rng.choice([4, 8, 12, 18, 26])
     for _ in range(n):
         r = rng.random()
-        if r < 0.24:
+        if r < 0.22:
             i = rng.choice([0, 0, 0, 1, 2]) if shape != 0 else rng.choice([0, 1, 1, 2])
             evs.append([0, i, rng.randint(0, 5)])
             nf += 1
-        elif r < 0.30:
+        elif r < 0.28:
             evs.append([1])
             nf += 1
-        elif r < 0.35:
-            evs.append([2, rng.randint(7000, 7009)])
+        elif r < 0.33 and shape != 5:
+            evs.append([2, rng.randint(7000, 7006)])
             manual = True
-        elif r < 0.38 and manual:
+        elif r < 0.36 and manual:
             evs.append([3])
-        elif r < 0.55:
+        elif r < 0.52:
             evs.append([4, rng.randint(0, min(nf, 8))])
-        elif r < 0.72:
+        elif r < 0.66:
             evs.append([5, rng.choice([0, 0, 1])])
-        elif r < 0.84:
+        elif r < 0.76:
             evs.append([6, [rng.randint(0, 3) for _ in range(rng.randint(0, 3))]])
-        elif r < 0.91:
-            evs.append([7])
+        elif r < 0.84 or na == 0:
+            evs.append([7, rng.choice([0, 1, 1])])
             na += 1
-        elif na > 0:
-            evs.append([8, rng.randint(0, na - 1)])
         else:
-            evs.append([5, 0])
+            # awaiters are polled again and again, each time with a fresh waker
+            evs.append([8, rng.randint(0, na - 1)])
     return [shape, wrap, dep, initial, evs]
 
 
@@ -129,6 +144,9 @@ def oracle(item, impl):
     manual_vals = []
     resolved = {}
     parked = {}          # awaiter -> wake count right after it was last polled and stayed pending
+    sus_flags = []       # per awaiter: created under the Suspense boundary
+    sus_polled = False   # a child under the boundary awaited the node since the last load started
+    first_started = bool(initial) or shape == 5
     for j, e in enumerate(evs):
         if e[0] == 0 and e[1] < 3:
             sig[e[1]] = e[2]
@@ -136,6 +154,23 @@ def oracle(item, impl):
         elif e[0] == 2:
             manual_vals.append(e[1])
         o = impl[j + 1]
+        before = impl[j]
+        # Suspense: a boundary whose child awaited the value is told about the next load
+        if e[0] == 7:
+            sus_flags.append(bool(e[1]))
+        if shape != 5:
+            if e[0] == 8 and e[1] < len(sus_flags) and sus_flags[e[1]] and e[1] not in resolved:
+                sus_polled = True
+            polls_node = (e[0] == 5 and e[1] == 0 and 0 in before[2]) or (e[0] == 6 and 0 in before[2])
+            first = polls_node and not first_started
+            if polls_node:
+                first_started = True
+            reload = o[5] > before[5]
+            if first or reload:
+                if sus_polled and o[1] == 1 and not (first and reload) and o[6] < 1:
+                    return ("event %d: a load started and is in flight, a child of the Suspense boundary had awaited the "
+                            "value, but the boundary has no pending task" % j)
+                sus_polled = False
         val = opt(o[0])
         # synchronous read: a previous value or none, never anything fabricated
         ok_vals = legit | set(manual_vals) | {fetch(*t) for t in seen_inputs}
@@ -164,6 +199,8 @@ def oracle(item, impl):
             return "settled on %r: neither fetch(latest inputs) = %r nor the last manual write %r" % (val, want, manual_vals[-1])
     elif val != want:
         return "settled on %r, but the fetcher applied to the latest inputs %r gives %r" % (val, inputs(shape, sig), want)
+    if fin[6] != 0:
+        return "all futures completed and the executor is idle, but the Suspense boundary still has %d pending tasks" % fin[6]
     if fin[1] != 0:
         return "all futures completed and the executor is idle, but the node still reports loading"
     if fin[2]:
@@ -208,13 +245,15 @@ def valid_case(item):
         if len(case) not in (5, 6):
             return False
         shape, wrap, dep, initial, evs = case[:5]
-        if shape not in (0, 1, 2, 3) or wrap not in (0, 1) or dep not in (0, 1, 2):
+        if shape not in (0, 1, 2, 3, 4, 5) or wrap not in (0, 1, 2) or dep not in (0, 1, 2):
             return False
         if shape == 3 and wrap != 0:
             return False
+        if wrap == 2 and shape != 0:
+            return False
         if not isinstance(initial, list) or len(initial) > 1 or (initial and (shape != 3 or initial[0] != 0)):
             return False
-        ar = {0: 3, 1: 1, 2: 2, 3: 1, 4: 2, 5: 2, 6: 2, 7: 1, 8: 2}
+        ar = {0: 3, 1: 1, 2: 2, 3: 1, 4: 2, 5: 2, 6: 2, 7: 2, 8: 2}
         manual = False
         na = 0
         for e in evs:
@@ -226,6 +265,10 @@ def valid_case(item):
             elif any((not isinstance(x, int)) or x < 0 for x in e[1:]):
                 return False
             if e[0] == 0 and (e[1] > 2 or e[2] > 5):
+                return False
+            if e[0] in (2, 3) and shape == 5:
+                return False
+            if e[0] == 7 and e[1] > 1:
                 return False
             if e[0] == 2:
                 manual = True
@@ -245,13 +288,14 @@ def valid_case(item):
 EV = {0: "write-signal", 1: "refetch", 2: "set", 3: "notify", 4: "complete", 5: "poll-task", 6: "run-until-idle",
       7: "new-awaiter", 8: "poll-awaiter"}
 SH = {0: "reads signals s0,s1", 1: "reads memos s0/2, s1", 2: "reads m3 then m2 (m3 depends on m2 = s0*10)",
-      3: "resource-like (memo over (refetch, s0/2), manual dependency)"}
+      3: "resource-like (memo over (refetch, s0/2), manual dependency)", 4: "leptos_server Resource over s0/2",
+      5: "leptos_server OnceResource"}
 
 
 def describe(it):
     case = it["case"]
     shape, wrap, dep, initial, evs = case[:5]
-    head = "%s node, %s, dependent=%s, initial=%r" % ("arena" if wrap else "Arc", SH[shape], dep, initial)
+    head = "%s node, %s, dependent=%s, initial=%r" % (["Arc", "arena", "unsync+refetch (LocalResource-like)"][wrap], SH[shape], dep, initial)
     if len(case) > 5 and case[5]:
         head += " [pre-fix model variant %d]" % case[5]
     return head + ": " + "; ".join("%s%s" % (EV.get(e[0], "?"), tuple(e[1:]) if len(e) > 1 else "") for e in evs)
